@@ -339,6 +339,29 @@ def run_case(ctx, i, rng):
             if e:
                 ctx.violation("mixed-roots:instance+netlist", "%s | %s" % (e, st))
                 return
+    # the documented lower-level entry point HRef.get_all_hrefs_of_item: the occurrences of an element - for an instance that sits in
+    # the design, and for one that does not (a copy that was never placed: it occurs nowhere)
+    for d in pick(defs, 4):
+        for x in pick(d.children, 2):
+            ctx.count("element_root_queries")
+            ctx.count("hrefs_of_item_queries")
+            got_ = list(HRef.get_all_hrefs_of_item(x))
+            e = cmp(ctx, "HRef.get_all_hrefs_of_item(instance)", got_, by_last.get(("instances", id(x)), collections.Counter()))
+            if not e and any(not h.is_valid for h in got_):
+                e = "HRef.get_all_hrefs_of_item(instance) returned a reference that reports invalid"
+            if not e and rng.random() < 0.5:
+                c_ = x.clone()
+                try:
+                    got_ = list(HRef.get_all_hrefs_of_item(c_))
+                finally:
+                    c_.reference = None       # (the copy leaves the reference set of the cell again)
+                ctx.count("hrefs_of_item_queries_for_unplaced_instances")
+                if got_:
+                    e = "HRef.get_all_hrefs_of_item(<copy of an instance that was never placed>) returned %d reference(s) %r" % (
+                        len(got_), [(h.name, h.is_valid) for h in got_[:2]])
+            if e:
+                ctx.violation("element-root:hrefs-of-item", "%s | %s" % (e, st))
+                return
     # ... an instance (or one of its pins) and a definition it is NOT an instance of, the definition standing last: the union -
     #     and asking again for the definition alone (its instances, one of its ports) afterwards gives what it gave before
     for d in pick([d_ for d_ in defs if d_.references], 3):
